@@ -108,10 +108,13 @@ def fault_histories(ctx, res, nhist, length, stats):
     create/write/close raises OSError"""
     for h in range(nhist):
         cfg = seqdrv.Config(policy=['least-recently-stored', 'none'][h % 2], min_file_size=8, cull_limit=[10, 0][(h // 2) % 2])
-        g = gen_hist.Gen(ctx.rng, cfg, weights=W)
+        wf = dict(W)
+        if h % 3 == 2:
+            wf.update({'pop': 20, 'pull': 12, 'get': 14, 'peek': 6, 'set': 24, 'push': 14})
+        g = gen_hist.Gen(ctx.rng, cfg, weights=wf)
         hist = g.history(length)
-        kind = ['sql', 'file'][h % 2]
-        target = ctx.rng.randrange(5, 60 if kind == 'sql' else 12)
+        kind = ['sql', 'file', 'read'][h % 3]
+        target = ctx.rng.randrange(5, 60 if kind == 'sql' else 12) if kind != 'read' else ctx.rng.randrange(1, 6)
         counter = {'n': 0, 'fired': None}
 
         def before(ev, kind=kind, target=target, counter=counter):
@@ -122,6 +125,12 @@ def fault_histories(ctx, res, nhist, length, stats):
                 if counter['n'] == target:
                     counter['fired'] = ev.short() + ' ' + str(ev.detail[0])[:60]
                     raise sqlite3.OperationalError('injected fault')
+            if kind == 'read' and ev.kind == 'file' and ev.what == 'open-read':
+                counter['n'] += 1
+                if counter['n'] == target:
+                    counter['fired'] = ev.short()
+                    import errno
+                    raise OSError(errno.EMFILE, 'injected fault')
             if kind == 'file' and ev.kind == 'file' and ev.what in ('create', 'write', 'close', 'makedirs'):
                 counter['n'] += 1
                 if counter['n'] == target:
@@ -155,7 +164,7 @@ def fault_histories(ctx, res, nhist, length, stats):
         res.count(['fault', h, kind, target, counter['fired']], nontrivial=counter['fired'] is not None)
         for sig, text in bad[:2]:
             if sig == 'unknown_file' and counter['fired'] is not None:
-                sig = ('leak_after_failed_write:%s' % (hist[failed_at]['op'] if failed_at is not None else '?')) if kind == 'sql' else 'partial_file_after_write_error'
+                sig = ('leak_after_failed_write:%s' % (hist[failed_at]['op'] if failed_at is not None else '?')) if kind == 'sql' else ('partial_file_after_write_error' if kind == 'file' else 'leak_after_failed_read')
             res.violations.append(fw.Violation(sig, '%s (injected %s fault #%d at %s, failing call %s)' % (
                 text, kind, target, counter['fired'], None if failed_at is None else hist[failed_at]['op']),
                 dict(gen_hist.history_json(g.objs, hist, cfg), check='fault', fault=[kind, target])))
